@@ -1903,6 +1903,26 @@ class C16(Prop):
                 c.meta = {'key': key, 'pos': 'uescape', 'escaped': True}
                 want[cid] = 'ok:[n(1,0)]'
                 cases.append(c)
+        # the spelling the theorems C16_bracket_spelling_parses / C16_member_addressable speak about: Coq's key_path
+        # (every control character as \\u00XX); the driver confirms that the path sent is exactly key_path q key
+        for i in range(n // 4):
+            key = gen_key(r)
+            if r.random() < 0.3:
+                key += ''.join(chr(r.choice([0, 1, 7, 8, 9, 10, 11, 12, 13, 27, 31, 34, 39, 92])) for _ in range(r.randint(1, 4)))
+            kb = key.encode('utf-8')
+            sibs = [sx for sx in near_misses(r, key)]
+            members = [(kb, ('n', 1.0))] + [(sx.encode('utf-8'), ('n', float(j + 2))) for j, sx in enumerate(sibs)]
+            r.shuffle(members)
+            present = r.random() < 0.85
+            obj = ('o', members if present else [m for m in members if m[0] != kb] + [(b'zz9', ('n', 5.0))])
+            for j, q in enumerate("'\""):
+                body = ''.join('\\' + ch if ch in (q, '\\') else ('\\u%04x' % ord(ch) if ord(ch) < 0x20 else ch) for ch in key)
+                cid = 'q%d_%d' % (i, j)
+                c = Case(cid, ('$[' + q + body + q + ']').encode('utf-8'), [obj])
+                c.keyq = (ord(q), [ord(ch) for ch in key])
+                c.meta = {'key': key, 'pos': 'coq-key-path', 'escaped': body != key, 'keyq': True}
+                want[cid] = 'ok:[n(1,0)]' if present else 'mne:' + hx(('[' + q + body + q + ']').encode('utf-8'))
+                cases.append(c)
         # two members addressed from the root on both sides of a comparison: distinct keys must stay distinct
         for i in range(n // 8):
             key = gen_key(r)
@@ -1932,6 +1952,9 @@ class C16(Prop):
                 continue
             a = g_.get('R0', 'P:' + g_.get('P', ''))
             b = m.get('R0', 'P:' + m.get('P', ''))
+            if c.meta.get('keyq') and m.get('KP') != '1':
+                res.violation('broken-correspondence', 'harness:key_path', 'the path sent for key %r is not Coq key_path of it' % (c.meta.get('key'),), c)
+                continue
             if a != b:
                 res.disagreements_checked += 1
                 res.violation('concrete', sig_of(c, 'key-vs-model'), '%r differs from the model' % (c.path,), c, expected=b, observed=a)
